@@ -190,6 +190,10 @@ def path_facts(atoms):
         truth = not (c == ('eq', 0))
         if _callp(a0, r'::is_empty$') and truth and c[0] in ('notin', 'eq'):
             facts.append(length(a0[2][0]))
+        if _is(a0, 'bin') and a0[1] in ('Eq', 'Ne') and (truth == (a0[1] == 'Eq')):
+            for x, y in ((a0[2], a0[3]), (a0[3], a0[2])):
+                if lit_text(y) == '' and _is(norm(y), 'lit'):
+                    facts.append(length(x))            # s == "" : the string is empty
     return facts
 
 
@@ -375,6 +379,10 @@ def string_tape(rep, F, fn, digits_param, spec_exp, rule='NUMERAL-SHAPE', delta_
             a0 = norm(a)
             if _is(a0, 'bin') and a0[1] == 'Gt' and c == ('eq', 0) and norm(a0[3]) == ('const', 1) and _callp(norm(a0[2]), r'::len$'):
                 facts.append(add(lin2(a0[2]), {1: 1}, -1))        # len <= 1 and digit strings are non-empty: len == 1
+            if _is(a0, 'bin') and ((a0[1] == 'Gt' and c == ('eq', 0)) or (a0[1] == 'Eq' and c != ('eq', 0))) and norm(a0[3]) == ('const', 0):
+                lx = lin2(a0[2])
+                if any(isinstance(k_, tuple) and k_ and k_[0] == 'len' for k_ in lx):
+                    facts.append(lx)                              # a usize quantity that is not > 0 is 0
         problems = []
         point_at = None
         zeros = {}
